@@ -71,7 +71,7 @@ BUILTIN_METHODS = {
     "isdigit", "partition", "rpartition", "sort", "insert", "clear", "popitem", "issubset", "union",
     "from_iterable", "from_bytes", "zfill", "ljust", "rjust", "isalnum", "isascii", "casefold", "index",
     "__contains__", "pop", "remove", "encode", "decode", "cancel", "done", "result", "set_result",
-    "set_exception", "add_done_callback", "call_later", "call_soon", "create_task", "create_future",
+    "set_exception", "add_done_callback", "call_later", "call_soon", "call_at", "time", "create_task", "create_future",
     "debug", "info", "warning", "error", "exception", "critical", "log", "warn",
 }
 
